@@ -635,7 +635,8 @@ class SmtLibParser(object):
     def _division(self, left: FNode, right: FNode) -> FNode:
         """Utility function that builds a division"""
         mgr = self.env.formula_manager
-        if left.is_constant() and right.is_constant():
+        if left.is_constant() and right.is_constant() and \
+           right.constant_value() != 0:
             return mgr.Real(Fraction(left.constant_value()) /
                             Fraction(right.constant_value()))
         return self.Div(left, right)
